@@ -22,7 +22,8 @@
    - corollary: such a program does not go wrong (through the C02_soundness theorems).
    Fragment of the corollary ([swt_program]): the structural checks are Static's own; every
    expression is typed by the specification and annotated with that type; every value meets a slot
-   of exactly its own type, or a slot of type any (wrapped) -- i.e. no conversion of a literal to a
+   of exactly its own type, or a slot of type any (wrapped); a literal whose elements have different
+   types is []any / {}any with every element wrapped -- i.e. no conversion of a literal to a
    DIFFERENT type ([1] into []any, [] into []num inside an expression, [[1]] + [[]]), except the
    empty literal [] / {} itself as the value of a declaration, an assignment or a return
    ( x:[]num ;  x = [] ).  Those conversions are where the models are
@@ -346,7 +347,7 @@ Example C02_types_ex_programs :
   s1_program C02.ex_ok = true /\ s1_program C02.ex_funcs = true.
 Proof. vm_compute. repeat split; reflexivity. Qed.
 
-(*  a:[]num  /  a = []  /  a = [1] + a[0:1]  /  m:{}[]num  /  m.k = a  /  m["k"][0] = 2  /  x:any  /  x = a
+(*  a:[]num  /  a = []  /  a = [1] + a[0:1]  /  print [1 "x" a]  /  m:{}[]num  /  m.k = a  /  m["k"][0] = 2  /  x:any  /  x = a
     if (len a) > 0 and m.k == a / print a[0] m / end  *)
 Definition ex_ctx : program :=
   let a := EVar (s_ "a") (TArr TNum) in
@@ -355,6 +356,7 @@ Definition ex_ctx : program :=
      p_stmts :=
        [SDecl (s_ "a") (TArr TNum) (EArr (TArr TNum) []);
         SAssign a (EArr (TArr TNum) []);
+        SCallStmt (s_ "print") [EAny (EArr (TArr TAny) [EAny C02.n1 TNum; EAny (EStr (s_ "x")) TStr; EAny a (TArr TNum)]) (TArr TAny)];
         SAssign a (EBin BPlus (TArr TNum) (EArr (TArr TNum) [C02.n1]) (ESlice (TArr TNum) a (Some C02.n0) (Some C02.n1)));
         SDecl (s_ "m") (TMap (TArr TNum)) (EMap (TMap (TArr TNum)) []);
         SAssign (EDot (TArr TNum) m (s_ "k")) a;
